@@ -9,8 +9,9 @@
 
    Guard `ops_guard`: all bytes are < 256, and ONLY when normalisation is off no mutated name is a case variant of
    a specially handled name.  With normalisation on the guard says nothing about names (C29_guard_normalising).
-   The three known findings are stated as `_refuted` theorems about the model; the positive theorems carry them
-   explicitly (k2adjust in PeekAll) or are restricted to the names they do not touch. *)
+   The known finding nonorm-special-casefold is stated as a `_refuted` theorem about the model (it is what the guard
+   excludes).  Two further defects found while building this property were repaired in /repo (PeekAll of an unset
+   special name, Connection: close next to an older value); the model describes the repaired code. *)
 From FH Require Import Model.Base Gen.GenC05 Model.ByteClassModel Model.Cookie Model.HeaderWrite Model.HeaderMap
   Spec.HeaderSpec Proof.HeaderMapProof Proof.HeaderSpecProof Proof.HeaderCaseProof.
 Open Scope N_scope.
@@ -23,15 +24,12 @@ Proof. exact casefold_ok_normalised. Qed.
 Print Assumptions C29_guard_normalising.
 
 (* ---- every keyed getter agrees with the reference multimap after any operation sequence ---- *)
-(* FULL statement (false of the code, see C29_peek_all_refuted): RPeekAll r k = spec_peek_all ... .
-   Proved: the same with the known finding made explicit — a specially handled name of class number / set-cookie /
-   trailer that holds no value answers one empty value (k2adjust). *)
 Theorem C29_refines_spec_response : forall nonorm nodefct ops k, ops_guard rspecials nonorm ops ->
   let r := fold_left rstep29 ops (rinit nonorm nodefct) in
   let m := srun HResp nonorm (map sop_of ops) in
   let c := canon nonorm k in
   RPeek r k = spec_peek HResp nodefct m c
-  /\ RPeekAll r k = k2adjust HResp c (spec_peek_all HResp nodefct m c)
+  /\ RPeekAll r k = spec_peek_all HResp nodefct m c
   /\ RContentType r = spec_peek HResp nodefct m strContentType
   /\ RContentEncoding r = spec_peek HResp nodefct m strContentEncoding
   /\ RServer r = spec_peek HResp nodefct m strServer.
@@ -43,8 +41,7 @@ Theorem C29_refines_spec_request : forall nonorm nodefct evs k, ops_guard qspeci
   let m := srun HReq nonorm (map sop_of (qev_ops evs)) in
   let c := canon nonorm k in
   QPeek q k = spec_peek HReq nodefct m c
-  /\ QPeekAll q k = (if beq c strCookie && negb (qcookiesCollected q) then spec_peek_all HReq nodefct m c
-                     else k2adjust HReq c (spec_peek_all HReq nodefct m c))
+  /\ QPeekAll q k = spec_peek_all HReq nodefct m c
   /\ QContentType q = spec_peek HReq nodefct m strContentType
   /\ QHost q = spec_peek HReq nodefct m strHost
   /\ QUserAgent q = spec_peek HReq nodefct m strUserAgent.
@@ -52,8 +49,8 @@ Proof. exact req_refines_spec_g. Qed.
 Print Assumptions C29_refines_spec_request.
 
 (* All() / VisitAll (hence PeekKeys, Len): the values yielded under an ordinary name, in order.
-   _partial: for the specially handled names All() is checked by the harness only (and is false for Connection,
-   see C29_all_refuted); ContentLength() and ConnectionClose() are checked by the harness only. *)
+   _partial: for the specially handled names All() is checked by the harness only; ContentLength() and
+   ConnectionClose() are checked by the harness only. *)
 Theorem C29_all_ordinary_response_partial : forall nonorm nodefct ops c, ops_guard rspecials nonorm ops -> ordinary_r c = true ->
   let r := fold_left rstep29 ops (rinit nonorm nodefct) in
   vals_of (RAll r) c = spec_all_vals HResp nodefct (srun HResp nonorm (map sop_of ops)) c.
@@ -92,7 +89,7 @@ Theorem C29_del_stable : forall h k c, c <> k -> peekAllArgs (delAllArgsStable h
 Proof. exact peekAll_del_other. Qed.
 Print Assumptions C29_del_stable.
 
-(* ---- known findings (each with its witness) ---- *)
+(* ---- known finding (with its witness) ---- *)
 (* nonorm-special-casefold: without the guard, setting one name changes another *)
 Theorem C29_other_names_untouched_refuted :
   exists ops o k', Forall wf_opk (ops ++ [o]) /\
@@ -100,21 +97,14 @@ Theorem C29_other_names_untouched_refuted :
     RPeekAll (rstep29 (fold_left rstep29 ops (rinit true false)) o) k' <> RPeekAll (fold_left rstep29 ops (rinit true false)) k'.
 Proof. exact untouched_refuted. Qed.
 Print Assumptions C29_other_names_untouched_refuted.
-(* peekall-unset-special-empty-value *)
-Theorem C29_peek_all_refuted :
-  exists k, RPeekAll (rinit false false) k <> spec_peek_all HResp false (srun HResp false []) (canon false k)
-            /\ RPeekAll (rinit false false) k = [[]] /\ RLen (rinit false false) = 1%Z.
-Proof. exact peek_all_refuted. Qed.
-Print Assumptions C29_peek_all_refuted.
-(* connection-close-keeps-old-value *)
-Theorem C29_all_refuted :
-  let ops := [HSet (s2b "Connection") (s2b "keep-alive"); HSet (s2b "Connection") (s2b "close")] in
-  let r := fold_left rstep29 ops (rinit false false) in
-  vals_of (RAll r) strConnection = [s2b "keep-alive"; s2b "close"]
-  /\ spec_all_vals HResp false (srun HResp false (map sop_of ops)) strConnection = [s2b "close"]
-  /\ RPeekAll r (s2b "Connection") = [s2b "close"].
-Proof. exact all_refuted. Qed.
-Print Assumptions C29_all_refuted.
+(* the two repaired defects do not show in the model of the repaired code *)
+Example C29_ex_repaired :
+  RPeekAll (rinit false false) (s2b "Content-Length") = [] /\ RPeekAll (rinit false false) (s2b "Set-Cookie") = []
+  /\ RPeekAll (rinit false false) (s2b "Trailer") = [] /\ QPeekAll (fst (QAll (qinit false false))) (s2b "Cookie") = []
+  /\ (let ops := [HSet (s2b "Connection") (s2b "keep-alive"); HSet (s2b "Connection") (s2b "close")] in
+      vals_of (RAll (fold_left rstep29 ops (rinit false false))) strConnection = [s2b "close"]
+      /\ vals_of (snd (QAll (fold_left qstep29 ops (qinit false false)))) strConnection = [s2b "close"]).
+Proof. exact repaired_examples. Qed.
 
 (* C29_write_read_roundtrip: no theorem.  "Header() then Read() yields the same non-framing fields in the same
    order" is judged by the harness on the real serialiser and the real parser (Check/C29Check.v roundtrip_ok);
